@@ -30,6 +30,9 @@ def cases(E):
     # Address.physical (also for file offset 0), so agreeing with the Bus means agreeing with where the assembler writes (C03's contract)
     from vf.props import C03 as c03
     cs += c03.set_position_cases(E)
+    # ... and how the assembler ADVANCES through that mapping (the address after n emitted bytes is the address of offset + n): C04's contracts
+    from vf.props import C04 as c04
+    cs += c04.address_contract_cases(E) + c04.live_bus_cases(E)
     return cs
 
 
